@@ -14,6 +14,11 @@ from amaranth import *
 from ..harness import Harness
 from ..engine import Query
 
+# FINDINGS
+#   235fdcd "fix: send an ERDY packet when an ERDY is requested"
+#       DISPATCH_REQUESTS went to SEND_NRDY on send_erdy; caught by subtype (bmc_free, step 2: ERDY request answered by a
+#       header with DW1 subtype 2 = NRDY).
+
 PROP = "C45"
 ENCODED = ["luna/gateware/usb/usb3/protocol/transaction.py: TransactionPacketGenerator (DISPATCH_REQUESTS request "
            "decoding, parameter latching, SEND_ACK/SEND_STALL/SEND_NRDY/SEND_ERDY packet assembly, done/ready)"]
